@@ -13,6 +13,7 @@ import (
 	"os"
 	"os/exec"
 	"path/filepath"
+	"runtime/pprof"
 	"sort"
 	"strconv"
 	"strings"
@@ -26,6 +27,11 @@ import (
 )
 
 func main() {
+	if pf := os.Getenv("C17_PROF"); pf != "" {
+		f, _ := os.Create(pf)
+		pprof.StartCPUProfile(f)
+		defer pprof.StopCPUProfile()
+	}
 	Register("lbo", runLbo)
 	Register("json", runJSON)
 	Register("canon", runCanon)
@@ -294,7 +300,13 @@ func parseReport(stderr string, kind, fname, shown string) string {
 func rle(data []byte) string {
 	var b strings.Builder
 	b.WriteString("(in")
-	lines := bytes.SplitAfter(data, []byte("\n"))
+	var lines [][]byte
+	for st, i := 0, 0; i < len(data); i++ {
+		if data[i] == '\n' || data[i] == '\r' && (i+1 == len(data) || data[i+1] != '\n') || i+1 == len(data) {
+			lines = append(lines, data[st:i+1])
+			st = i + 1
+		}
+	}
 	for i := 0; i < len(lines); {
 		if len(lines[i]) == 0 {
 			i++
@@ -371,14 +383,16 @@ func runJSONCase(c *Ctx, jc jsonCase, tmpdir string) (line string, ok bool) {
 	er := &errRecorder{pr: pr}
 	cli.VerifRunC17(args, stdin, out, er)
 	stderr := er.buf.String()
-	chunks := "(c"
+	var cb strings.Builder
+	cb.WriteString("(c")
 	if pr != nil {
 		for _, m := range out.marks {
-			chunks += " " + strconv.Itoa(m)
+			cb.WriteString(" " + strconv.Itoa(m))
 		}
-		chunks += " " + strconv.Itoa(er.first)
+		cb.WriteString(" " + strconv.Itoa(er.first))
 	}
-	chunks += ")"
+	cb.WriteString(")")
+	chunks := cb.String()
 	rep := parseReport(stderr, "invalid json: ", fname, fname)
 	c.Count("json:" + jc.transport)
 	return fmt.Sprintf("(json %s %s %s %s %s %s %s %s)", tr, Hexs([]byte(fname)), rle(jc.data), errk, chunks,
@@ -528,7 +542,7 @@ func runJSON(c *Ctx) {
 			for ti, term := range terms {
 				class := (round + di + ti) % 2
 				var doc []byte
-				if (round+di)%4 == 3 {
+				if (round+di)%4 == 3 && (ds <= 17000 || !quick && round%4 == 0) {
 					doc = genLongLineDoc(r, ds, term, class)
 				} else {
 					doc = genDoc(r, ds, term, class)
@@ -544,6 +558,9 @@ func runJSON(c *Ctx) {
 					pd := precDocs[r.Intn(len(precDocs))]
 					if all {
 						pt = 0
+					}
+					if pd == 10 && pt > 20000 {
+						pd = 100 // thousands of tiny documents cost the implementation a new env each
 					}
 					prec := genPreceding(r, pt, pd, term)
 					bad := corrupt(doc, x, kind)
@@ -723,8 +740,8 @@ func runQuery(c *Ctx) {
 				if c.Tier != "thorough" && (pi+bi+qi)%3 != int(c.Seed%3) && !strings.HasPrefix(bt.kind, "interp") {
 					continue
 				}
-				src := q[:p] + bt.text + " " + q[p:]
-				queryCase(c, tmp, src, (pi+bi)%2 == 0, bt, p)
+				src := q[:p] + " " + bt.text + " " + q[p:]
+				queryCase(c, tmp, src, (pi+bi)%2 == 0, bt, p+1)
 				n++
 			}
 		}
